@@ -53,7 +53,7 @@ type RouteTarget struct {
 	SrcBucket string   // copy routes
 	SrcKey    string
 	SrcVerID  string
-	SrcEnc    bool // spell the copy source fully percent-encoded
+	SrcEnc    bool   // spell the copy source fully percent-encoded
 	Aux       string // admin routes: account name; CreateBucket: ignored (Bucket is the new name)
 	Owner     string // AdminChangeBucketOwner: new owner
 }
